@@ -29,7 +29,7 @@ class Config(object):
         crash=False,
         hold=0,
         rerun=0,  # number of rerun requests per history
-        rerun_mode="default",  # default | tasks | all
+        rerun_mode="default",  # default | tasks | all | failed | failed-pairs
         rerun_outcomes=None,  # outcome menu after a rerun (None: same menu)
         render=False,
         canceled_outcome=True,  # after a cancel request in-flight actions may report canceled
@@ -133,6 +133,11 @@ def rerun_requests(sim, cfg):
         k = (rec["id"], rec["route"])
         if k in seen or rec["id"] in simmod.ENGINE_COMMANDS:
             continue
+        if cfg.rerun_mode in ("failed", "failed-pairs"):
+            # only executions whose latest record failed
+            idx = ws.tasks.get("%s__r%s" % k)
+            if idx is None or ws.sequence[idx].get("status") not in simmod.ABENDED:
+                continue
         seen.add(k)
         recs.append(k)
     has_items = sim.scn.meta.get("items_tasks", [])
@@ -143,7 +148,7 @@ def rerun_requests(sim, cfg):
             singles.append([t, r, True])
     for s in singles:
         out.append([s])
-    if cfg.rerun_mode == "all":
+    if cfg.rerun_mode in ("all", "failed-pairs"):
         for i in range(len(singles)):
             for j in range(i + 1, len(singles)):
                 if singles[i][:2] != singles[j][:2]:
